@@ -725,10 +725,10 @@ func checkAndPropagateArgs(
 		defineArgIdx++
 	}
 
-	// a method without a declared signature that returns untyped takes
-	// anything; one that declares its parameters is checked like any other,
-	// whatever it returns
-	if methodT.IsAnyType() && len(methodT.GetDefineArgs()) == 0 {
+	// the stand-in for a method nobody declared (a call on an untyped receiver)
+	// takes anything; a declared method is checked like any other, whatever it
+	// returns and also when it declares no parameters
+	if methodT.IsAnyType() && len(methodT.GetDefineArgs()) == 0 && methodT.DefinedClass == "" {
 		return nil
 	}
 
